@@ -27,11 +27,27 @@ PROMPTS = [
     ({"re": cc.RE_POOL[1]}, b"b>"),
     ({"re": cc.RE_POOL[2]}, b"=> "),
     ({"re": cc.RE_POOL[7]}, b">>"),
+    ({"str": "\u276f "}, "\u276f ".encode()),          # non-ASCII literal prompts (byte length != character count)
+    ({"lit": "\u00e9> ".encode().hex()}, "\u00e9> ".encode()),
+]
+
+# context-sensitive regex prompts (outside the Coq regex fragment): judged by the oracle only
+RAW_PROMPTS = [
+    ({"raw": "^=> ", "flags": "M"}, b"=> "),
+    ({"raw": "(?<=\\n)=> "}, b"=> "),
+    ({"raw": "\\bU-Boot> "}, b"U-Boot> "),
+    ({"raw": "(?<!a)=> "}, b"=> "),
 ]
 
 
 def ends_with_prompt(p, buf):
     """None, or number of bytes preceding the prompt when buf ends with (a match of) p -- reference semantics"""
+    if "raw" in p:
+        pat = cc.sstr_py(p)
+        for i in range(len(buf) + 1):
+            if pat.fullmatch(buf, i):
+                return i
+        return None
     if "re" in p:
         pat = re.compile(cc.re_py(p["re"]))
         for i in range(len(buf) + 1):
@@ -120,8 +136,32 @@ class RupSuite(cc.ChanSuite):
     def klass(self, case, obs):
         o = [x for x in case["ops"] if x[0] == "rup"][0]
         p = o[1] or [x for x in case["ops"] if x[0] == "push_prompt"][0][1]
-        kind = "regex" if "re" in p else ("str" if "str" in p else "bytes")
+        kind = "regex" if "re" in p else ("ctx-regex" if "raw" in p else ("str" if "str" in p else "bytes"))
         return kind + ("/per-call" if o[1] is not None else "/channel")
 
 
-SUITES = [RupSuite()]
+class RupCtxSuite(RupSuite):
+    """regex prompts with context-sensitive zero-width assertions (^ under MULTILINE, look-behind, \\b):
+    outside the regex fragment of the Coq model, so only the independent oracle judges them"""
+    name = "rup_ctx"
+    model_fn = None
+
+    def gen(self, tier, rng):
+        thorough = tier == "thorough"
+        for p, tail in RAW_PROMPTS:
+            for _ in range(1500 if thorough else 300):
+                alpha = bytes(sorted(set(tail))) + b"\n a" + tail
+                body = cc.rand_bytes(rng, rng.randint(0, 12), alpha)
+                sep = rng.choice([b"\n", b"\n", b" ", b""])
+                stream = body + sep + tail
+                pieces = cc.rand_split(rng, stream, 6)
+                ops = [["rup", p, None]] if rng.random() < 0.5 else [["push_prompt", p], ["rup", None, None], ["pop"]]
+                yield {"pieces": cc.timed(pieces), "accept": [], "ops": ops}
+            # every composition of one short stream with a mid-line look-alike
+            stream = b"a" + tail[:3] + b"\n" + tail
+            if len(stream) <= 12:
+                for pieces in cc.all_compositions(stream):
+                    yield {"pieces": cc.timed(pieces), "accept": [], "ops": [["rup", p, None]]}
+
+
+SUITES = [RupSuite(), RupCtxSuite()]
